@@ -327,6 +327,7 @@ fn coll(c: &MCol) -> String {
     if c.nocase { "NOCASE".into() } else { "BINARY".into() }
 }
 
+#[allow(dead_code)]
 pub struct Facts {
     pub alias: Option<usize>,
 }
